@@ -11,9 +11,9 @@ namespace Thr2Aio
 
 theorem step_none_of_not_act (c : Cfg) (s : St) (a : Nat) (h : a ∉ acts) : step c s a = none := by
   simp only [acts, List.mem_cons, List.not_mem_nil, or_false, not_or] at h
-  obtain ⟨h0, h1, h2, h3, h4⟩ := h
-  match a, h0, h1, h2, h3, h4 with
-  | a + 5, _, _, _, _, _ => simp [step, stepL]
+  obtain ⟨h0, h1, h2, h3, h4, h5⟩ := h
+  match a, h0, h1, h2, h3, h4, h5 with
+  | a + 6, _, _, _, _, _, _ => simp [step, stepL]
 
 theorem closed_step (c : Cfg) (R : List St) (h : Closed c R = true) (s : St) (hs : s ∈ R) (a : Nat) :
     (step c s a).getD s ∈ R := by
@@ -56,15 +56,16 @@ theorem collectStep_started (c : Cfg) (s t : St) (l : String) (h : collectStep c
 /-- all configurations of the repaired code -/
 def fixedCfgs : List Cfg :=
   [Flavour.plain, .ts].flatMap fun f => [Kind.soon, .rel].flatMap fun k =>
-    [Mode.onLoop, .foreign, .notRunning].map fun m => ⟨f, k, m, .fixed⟩
+    [SMode.onLoop, .foreign, .pre].flatMap fun sm =>
+      [Mode.onLoop, .foreign, .notRunning].map fun m => ⟨f, k, sm, m, .fixed⟩
 
 theorem mem_fixedCfgs (c : Cfg) (h : c.test = .fixed) : c ∈ fixedCfgs := by
-  obtain ⟨f, k, m, t⟩ := c
+  obtain ⟨f, k, sm, m, t⟩ := c
   simp only at h; subst h
-  cases f <;> cases k <;> cases m <;> decide
+  cases f <;> cases k <;> cases sm <;> cases m <;> decide
 
 /-- The kernel computes the reachable set of every repaired configuration, checks that it is closed under
-all five actions and that every state in it is safe (no late start, no early start). -/
+all six actions and that every state in it is safe (no late start, no early start). -/
 theorem fixed_reach_ok : fixedCfgs.all (fun c => Closed c (reach c) && (reach c).all safe) = true := by decide
 
 theorem fixed_safe (c : Cfg) (h : c.test = .fixed) (sch : List Nat) : safe (run c (init c) sch) = true := by
